@@ -487,7 +487,7 @@ def evaluate_corr(report, imports, corr_mod, name, case_type, cases, meta, agree
     report.notes[f"{name}.cases"] = len(cases)
     report.notes[f"{name}.disagreements"] = len(bad[agree])
     report.notes[f"{name}.property_failures"] = len(bad[prop])
-    if bad[prop]:
+    if prop != agree and bad[prop]:
         i = bad[prop][0]
         report.violation(
             f"{name}_{i}",
